@@ -32,7 +32,7 @@ ASSUMPTIONS = [
     "ignore patterns and the tool name are non-empty, as every caller guarantees",
     "TZ=UTC during the check (offset correctness is C16)",
 ]
-BUDGET = {"quick": (600, 4), "thorough": (40000, 16)}
+BUDGET = {"quick": (600, 4), "thorough": (100000, 16)}
 REQUIRED = ["special_text", "line_separator_text", "size0", "previous_path", "reference", "dir_record", "roothash", "authors", "chain", "history_manifests", "chain_nonunique_or_gapped", "collection_files"]
 
 CLI = refhash.CLI_FORMATS
